@@ -34,6 +34,9 @@ def kTypeColon : Str := [116, 121, 112, 101, 58]  -- 'type:'
 def kCurrent : Str := [99, 117, 114, 114, 101, 110, 116]  -- 'current'
 def colon : Nat := 58
 
+/-- hooks.py l.49: `config.Eups.VRO["default"]` -/
+def defaultBase : List Str := [kTypeExact, kCommandLine, kVersion, kVersionExpr, kCurrent]
+
 /-- the pseudo tags registered by `Eups.__init__` (l.338) -/
 def pseudoTags : List Str :=
   [kCommandLine, kKeep, kPath, kSetup, kType, kVersion, kVersionBang, kVersionExpr, kWarn]
@@ -518,10 +521,15 @@ def movedByExact (c : VroCfg) (cmdTags : List Str) (e : Str) : Bool :=
   let v0 := splitColon0 e
   !c.recognized v0 || (!cmdTags.contains v0 && c.isGlobal v0)
 
+/-- keep the first occurrence of each entry (`if not tagVroEntries.count(v): tagVroEntries.append(v)`) -/
+def uniqFirst : List Str → List Str
+  | [] => []
+  | x :: xs => x :: (uniqFirst xs).filter (· != x)
+
 /-- `makeVroExact` (l.3753): tags that are not command-line tags go to the end, behind a `warn:1` -/
 def makeVroExact (c : VroCfg) (cmdTags : List Str) (vro : List Str) : List Str :=
   if c.userVRO then vro else
-  let moved := (vro.filter (movedByExact c cmdTags)).eraseDups
+  let moved := uniqFirst (vro.filter (movedByExact c cmdTags))
   let kept := vro.filter (fun e => !movedByExact c cmdTags e)
   -- `movedTags`: some kept entry stands behind a moved one
   let movedTags := (vro.dropWhile (fun e => !movedByExact c cmdTags e)).any
@@ -605,22 +613,27 @@ def chooseBase (c : VroCfg) (a : VroArgs) (tags : List Str) :
                          fun l' => setKey vroTag (VroVal.byDbz (setKey kDefault l' d)) c.vroDict)
         | none => .error .runtimeError
 
+/-- `where` after the loop of l.3654-3656 (`none` when there are no -t tags: the loop is not run) -/
+def pretagPos (v1 tags : List Str) : Option Nat :=
+  if tags.isEmpty then none
+  else some ((afterLast (fun v => v == kCommandLine || isType v) 0 v1).getD 0)
+
+/-- the -t tags go behind the last `commandLine` / `type:*` entry -/
+def withPretags (v1 tags : List Str) : List Str :=
+  match pretagPos v1 tags with
+  | some w => insertAt v1 w tags
+  | none => v1
+
 /-- l.3648-3682: `keep` at the head, the -t tags behind the last `commandLine` / `type:*` entry, the
 -T tags behind the last version-type entry (`where` keeps its earlier value when there is none, and
 is unbound when there were no -t tags either) -/
 def placeTags (keep : Bool) (base tags postTags : List Str) : Except Err (List Str) :=
   let v1 := if keep then kKeep :: base else base
-  let whereT : Option Nat :=
-    if tags.isEmpty then none
-    else some ((afterLast (fun v => v == kCommandLine || isType v) 0 v1).getD 0)
-  let v2 := match whereT with
-    | some w => insertAt v1 w tags
-    | none => v1
-  if postTags.isEmpty then .ok v2
+  if postTags.isEmpty then .ok (withPretags v1 tags)
   else
-    match afterLast isVT 0 v2, whereT with
-    | some w, _ => .ok (insertAt v2 w postTags)
-    | none, some w => .ok (insertAt v2 w postTags)
+    match afterLast isVT 0 (withPretags v1 tags), pretagPos v1 tags with
+    | some w, _ => .ok (insertAt (withPretags v1 tags) w postTags)
+    | none, some w => .ok (insertAt (withPretags v1 tags) w postTags)
     | none, none => .error .unboundLocal
 
 /-- l.3683-3707: duplicates out, warnings merged, exact / inexact processing -/
